@@ -26,7 +26,8 @@ def run(ctx):
     if rc != 0:
         res['violations'].append({'signature': 'harness-error', 'what': log[-800:], 'case': None})
         return res
-    rows = json.load(open(out))['rows']
+    data = json.load(open(out))
+    rows, deep = data['rows'], data.get('deep', [])
     by = {}
     for row in rows:
         by.setdefault(row['family'], {})[row['k']] = row
@@ -48,6 +49,25 @@ def run(ctx):
         res['violations'].append({'signature': 'F4b:ram-key-hashing-exponential', 'case': {'family': 'crop+ram', 'k': [k, 2 * k]},
                                   'observed': {'cpu_k': ram[k]['cpu_repeat_call_s'], 'cpu_2k': ram[2 * k]['cpu_repeat_call_s'], 'cpu_2k_no_cache': plain[2 * k]['cpu_repeat_call_s']},
                                   'what': 'C20: a repeated call through CacheToRam on k stacked Crop layers'})
+    # the same for the other families with a cache or a keyed layer: CPU time of a repeated call (time spent inside CPython comparing or hashing
+    # nested hash values is not visible in call counts)
+    for fam in ('crop+disk', 'crop+filter', 'crop+groupby', 'chain+ram', 'fanin+ram'):
+        d = by[fam]
+        n += 1
+        t1, t2 = d[k]['cpu_repeat_call_s'], d[2 * k]['cpu_repeat_call_s']
+        if t2 > 0.05 and t2 > 16 * max(t1, 1e-4) and t2 > 5 * plain[2 * k]['cpu_repeat_call_s']:
+            res['violations'].append({'signature': 'oracle:superpolynomial-cpu-of-repeated-call', 'case': {'family': fam, 'k': [k, 2 * k]},
+                                      'observed': {'cpu_k': t1, 'cpu_2k': t2, 'cpu_2k_no_cache': plain[2 * k]['cpu_repeat_call_s']},
+                                      'what': f'C20: a repeated call of the {fam} family takes {t1:.4f} s CPU at k={k} and {t2:.4f} s at k={2 * k} (x{t2 / max(t1, 1e-4):.0f}; '
+                                              f'at most x4 for a quadratic cost)'})
+    if len(deep) == 2:
+        n += 1
+        t1, t2 = deep[0]['cpu_repeat_call_s'], deep[1]['cpu_repeat_call_s']
+        if t2 > 0.05 and t2 > 16 * max(t1, 1e-4):
+            res['violations'].append({'signature': 'oracle:superpolynomial-cpu-of-repeated-call', 'case': {'family': 'crop+disk', 'k': [deep[0]['k'], deep[1]['k']]},
+                                      'observed': {'cpu_k': t1, 'cpu_2k': t2},
+                                      'what': f'C20: a repeated call through CacheToDisk on {deep[1]["k"]} stacked Crop layers takes {t2:.3f} s CPU, on {deep[0]["k"]} layers {t1:.4f} s '
+                                              f'(x{t2 / max(t1, 1e-4):.0f}; at most x4 for a quadratic cost)'})
     res['oracle_checks'] = n
     res['evaluations'] += len(rows)
     res['distribution']['families'] = sorted(by)
